@@ -58,12 +58,12 @@ Print Assumptions C23_absent.
 Definition lab (n : list Z) (at_ : Z) : label := mkLabel n at_.
 Definition ex : list stmt :=
   [ mkStmt [] (NDir (DOrig 12288)) 0 11;
-    mkStmt [lab [97; 98; 99] 12] (NInstr AHALT) 16 20;                    (* abc HALT *)
-    mkStmt [lab [65; 66; 99] 21] (NDir DEnd) 25 29;                       (* ABc .end  (same address: no conflict) *)
+    mkStmt [lab [97; 98; 99] 12; lab [65; 66; 99] 21] (NInstr AHALT) 16 20;   (* abc ABc HALT  (same address: no conflict) *)
+    mkStmt [lab [122; 122] 23] (NDir DEnd) 25 29;                          (* zz .end *)
     mkStmt [] (NDir (DExternal (lab [101; 120; 116] 40))) 30 43 ].        (* .external ext *)
 Example C23_ex : match pass1 ex None with
   | AOk sym => lookup_label sym [65; 98; 67] = Some 12288 /\ get_label_source sym [65; 66; 67] = Some (12, 15)
                /\ lookup_label sym [69; 88; 84] = Some 0 /\ rev_lookup_label sym 12288 = Some [65; 66; 67]
-               /\ lookup_label sym [122] = None
+               /\ lookup_label sym [90; 122] = Some 12289 /\ lookup_label sym [122] = None
   | _ => False end.
 Proof. vm_compute. repeat split; reflexivity. Qed.
